@@ -1,6 +1,10 @@
 package json
 
-import "github.com/go-json-experiment/json/internal/zzverif/vrt"
+import (
+	"github.com/go-json-experiment/json/internal/zzverif/vrt"
+	"github.com/go-json-experiment/json/internal/zzverif/zzspec"
+	"github.com/go-json-experiment/json/jsontext"
+)
 
 // VerifC08UintSet: uintSet behaves as a mathematical set of field indices from an ARBITRARY
 // pre-state (arbitrary lo word, hiLen arbitrary words): insert(i) reports "first insertion"
@@ -27,3 +31,34 @@ func VerifC08UintSet(hiLen int) {
 	}
 	vrt.Assert("C08/uset/second-insert-not-first", !s.insert(i))
 }
+
+// VerifC08Map: duplicate names are rejected for map targets whether or not the name is
+// already a key of the destination map (the map unmarshaler tracks the names seen in the
+// input separately from the entries that exist before the call). The destination is
+// pre-populated with the key "a" when prefilled; names are symbolic bytes.
+func VerifC08Map(tmpl string, prefilled, allowDup bool) {
+	b := vrt.Template("b", tmpl)
+	m := map[string]int8{}
+	if prefilled {
+		m["a"] = 9
+	}
+	var err error
+	if allowDup {
+		err = Unmarshal(b, &m, jsontextAllowDup())
+	} else {
+		err = Unmarshal(b, &m)
+	}
+	valid := zzspecValid(b, !allowDup)
+	vrt.Observe("errnil", err == nil)
+	if !valid {
+		vrt.Cover("reject")
+		vrt.Assert("C08/map/duplicate-or-invalid-rejected", err != nil)
+		return
+	}
+	vrt.Cover("accept")
+	vrt.Assert("C08/map/valid-accepted", err == nil)
+}
+
+func jsontextAllowDup() Options { return jsontext.AllowDuplicateNames(true) }
+
+func zzspecValid(b []byte, unique bool) bool { return zzspec.ValidText(b, true, unique, 10000) }
